@@ -822,15 +822,16 @@ def _plan(tier):
                  ("obs", 2, 2, 1, 1, 1, 7, 400000, tb), ("obs", 2, 2, 3, 1, 2, 7, 400000, tb)]
         return plan
     return [
-        ("sw", 1, 2, 1, 1, 2, 5, 60000, 15),
-        ("sw", 2, 1, 1, 1, 1, 5, 60000, 15),
-        ("fs", 2, 2, 1, 3, 2, 4, 60000, 15),
-        ("fst", 2, 2, 3, 1, 1, 5, 60000, 15),
-        ("fst", 2, 2, 0, 0, 2, 5, 60000, 15),
-        ("all", 1, 2, 1, 1, 2, 3, 60000, 10),
-        ("db", 1, 2, 1, 1, 1, 4, 60000, 15),
-        ("sw", 0, 1, 1, 1, 0, 4, 60000, 10),
-        ("obs", 2, 2, 1, 1, 1, 4, 60000, 10),
+        # (time budgets only decide whether a further level is STARTED; generous so that a loaded machine still reaches the depth)
+        ("sw", 1, 2, 1, 1, 2, 5, 60000, 120),
+        ("sw", 2, 1, 1, 1, 1, 5, 60000, 120),
+        ("fs", 2, 2, 1, 3, 2, 4, 60000, 120),
+        ("fst", 2, 2, 3, 1, 1, 5, 60000, 120),
+        ("fst", 2, 2, 0, 0, 2, 5, 60000, 120),
+        ("all", 1, 2, 1, 1, 2, 3, 60000, 120),
+        ("db", 1, 2, 1, 1, 1, 4, 60000, 120),
+        ("sw", 0, 1, 1, 1, 0, 4, 60000, 120),
+        ("obs", 2, 2, 1, 1, 1, 4, 60000, 120),
     ]
 
 
@@ -869,9 +870,9 @@ def run(tier, is_known):
     MIDFIX = [("sw", "service", "fix"), ("sw", "application", "fix"), ("tick",)]
     th = tier == "thorough"
     plan = [p + ((),) for p in plan]
-    plan += [("fst", 2, 2, 3, 1, 1, 6 if th else 4, 400000 if th else 60000, 600 if th else 15, OVERLAP),
-             ("fst", 2, 2, 4, 2, 2, 6 if th else 4, 400000 if th else 60000, 600 if th else 15, OVERLAP),
-             ("sw", 2, 3, 1, 1, 2, 6 if th else 4, 400000 if th else 60000, 600 if th else 15, MIDFIX)]
+    plan += [("fst", 2, 2, 3, 1, 1, 6 if th else 4, 400000 if th else 60000, 600 if th else 120, OVERLAP),
+             ("fst", 2, 2, 4, 2, 2, 6 if th else 4, 400000 if th else 60000, 600 if th else 120, OVERLAP),
+             ("sw", 2, 3, 1, 1, 2, 6 if th else 4, 400000 if th else 60000, 600 if th else 120, MIDFIX)]
     for menu, fs_, fa, ds, dr, n, depth, budget, tb, init in plan:
         ad = HealthAdapter(menu, fs_, fa, ds, dr, n, init)
         engine._ADAPTERS[ad.name] = ad  # registered before the pool forks: one pool for all harnesses
@@ -882,11 +883,11 @@ def run(tier, is_known):
         for d in ((1, 2, 3) if tier == "thorough" else (2,)):
             ad = FixAdapter(nm, d)
             engine._ADAPTERS[ad.name] = ad
-            ads.append((ad, 6 if tier == "thorough" else 4, 200000, 120 if tier == "thorough" else 10))
+            ads.append((ad, 6 if tier == "thorough" else 4, 200000, 120 if tier == "thorough" else 60))
         # start state: a fix that has already run one step (what an interrupted fix leaves behind for the next one)
         ad = FixAdapter(nm, 3, init=[("req", "fix"), ("tick",)])
         engine._ADAPTERS[ad.name] = ad
-        ads.append((ad, 6 if tier == "thorough" else 4, 200000, 120 if tier == "thorough" else 10))
+        ads.append((ad, 6 if tier == "thorough" else 4, 200000, 120 if tier == "thorough" else 60))
     viols, per, samples, hist = [], [], [], {}
     tot = {"states": 0, "transitions": 0}
     outcomes = 0
